@@ -23,6 +23,10 @@ def domain(tier):
         for w in (None, 8, 32, 160, 192, 256):
             d.append(["word", w, usage])
     d += [["word", 8, "bool"], ["word", 160, "address"], ["word", 32, "selector"], ["word", 192, "function"]]
+    # widths that are not whole bytes (what an unaligned mask produces), beyond the quantifier's list
+    d += [["word", 1, "bytes"], ["word", 7, "bytes"], ["word", 12, "numeric"]]
+    if tier == "thorough":
+        d += [["word", 250, "bytes"], ["word", 255, "unsigned"], ["word", 9, "signed"]]
     d += [["map", 0, 1], ["map", 2, 3], ["dyn", 0], ["dyn", 1]]
     d += [["fixed", 0, "0x1"], ["fixed", 1, "0x1"], ["fixed", 0, "0x2"], ["fixed", 1, "0x2"]]
     d += [["conflict"]]
